@@ -164,6 +164,7 @@ def run(ctx):
     r4(ctx, F)
     r5(ctx, F)
     r6_taiko(ctx, F)
+    r7_marks_every_path(ctx, F)
     ctx.not_decided('all other counting clauses: n_circles+n_sliders+n_spinners = objects considered, taiko max combo = hits, mania counts, '
                     'catch fruit counts, min(n,total), monotonicity in n, saturation above the total')
 
@@ -613,3 +614,51 @@ def r6_taiko(ctx, F):
         return
     ctx.require(ok, 'C14-R6', 'taiko:count-every-object', 'taiko one-shot max_combo / n_diff_objects: %s' % why, f.where(),
                 bad='taiko create_difficulty_objects: %s — max combo no longer equals the number of hits for the maps that take that exit (e.g. a one-object map)' % why)
+
+
+# ---- R7: the converter marks its result on EVERY path (seed C14-7: a fast path that returns before `is_convert = true`)
+def r7_marks_every_path(ctx, F):
+    """`<Mode>::convert(map, ..)` is what convert_ref / convert_mut call once they have decided to convert.  With every private helper inlined,
+    every path from its entry to a return writes `map.is_convert = true` and `map.mode = GameMode::<Mode>`; no other value is written to
+    either field.  A path that returns early with the mode switched but the flag unset hands out a converted map that says it is native."""
+    import inline
+    from props import C19
+    n = 0
+    for m in ('taiko', 'catch', 'mania'):
+        path = '%s::%s::convert' % (m, CAP[m])
+        f0 = F.fn(path)
+        key = 'every-path:' + m
+        if f0 is None:
+            ctx.violation('C14-R7', 'anchor-missing:' + path, 'the mode\'s conversion entry %s was not found' % path)
+            continue
+        f = inline.inlined(F, f0, force=lambda h: True) or f0
+        ctx.saw(f0)
+        P = prov.prov_of(f)
+        marks = {'is_convert': set(), 'mode': set()}
+        other = []
+        for fld, want in (('is_convert', 'true'), ('mode', MODE_VARIANT[m])):
+            for bi, s, whole in C19.elem_writes(f, fld, root_param=1):
+                if not whole or s['rv']['k'] != 'use':
+                    other.append('%s (block %d)' % (fld, bi))
+                    continue
+                v = prov.strip(P.operand(s['rv']['op'], bi, f.blocks[bi]['s'].index(s)))
+                if fld == 'is_convert':
+                    good = prov.const_val(v) == want
+                else:
+                    good = v[0] == 'agg' and v[3] == want
+                if good:
+                    marks[fld].add(bi)
+                else:
+                    other.append('%s = %s (block %d)' % (fld, prov.show(v, maxdepth=2), bi))
+        n += 1
+        if other:
+            ctx.violation('C14-R7', key + ':other-write', '%s also writes %s' % (path, other), f0.where())
+            continue
+        ok_ic = bool(marks['is_convert']) and f.cfg.must_pass_through(0, marks['is_convert'])
+        ok_mode = bool(marks['mode']) and f.cfg.must_pass_through(0, marks['mode'])
+        ctx.require(ok_ic and ok_mode, 'C14-R7', key, 'every path through %s (helpers inlined, %d blocks) to a return writes is_convert = true and mode = GameMode::%s' % (
+            path, len(f.blocks), MODE_VARIANT[m]), f0.where(),
+            bad='%s: a path from the entry to a return skips %s: the converted map is handed out %s' % (
+                path, 'the write `is_convert = true`' if not ok_ic else 'the write of `mode`',
+                'with its mode switched but flagged as a native map' if not ok_ic else 'flagged as a convert but with its old mode'))
+    ctx.floor('C14-R7', n, 3, 'mode conversion entries')
